@@ -997,7 +997,9 @@ func (s *Server) cmdFSET(msg *Message) (resp.Value, commandDetails, error) {
 
 	var res resp.Value
 
-	if ret {
+	if ret && ok {
+		// there is only an object to return when the id exists (FSET ... XX on
+		// a missing id changes nothing and answers like the plain form)
 		res := buildObjectResponse(msg, d.obj, start, kind, precision, withfields, msg.OutputType == JSON)
 		return res, d, nil
 	}
